@@ -12,6 +12,8 @@ for d in $(cat /tmp/wt/cf_list.txt); do
   demo=$(ls $d | grep '_test.go$' | head -1)
   pkg=$(grep -o 'go test[^|`]*' $d/notes.md | grep -o '\./x/[a-z]*/[a-z]*' | head -1)
   [ -z "$pkg" ] && pkg=$(grep -o '\./x/[a-z]*/[a-z]*' $d/notes.md | head -1)
+  mp=$(jq -r '.demo_pkg // ""' $d/meta.json); [ -n "$mp" ] && pkg=$mp
+  run=$(jq -r '.demo_run // "."' $d/meta.json)
   base=$(jq -r .base_commit $d/meta.json)
   rm -rf $wt; git -C /repo worktree prune
   git -C /repo worktree add --detach -q $wt HEAD
@@ -21,13 +23,13 @@ for d in $(cat /tmp/wt/cf_list.txt); do
   {
     echo "== $name at $(git -C $wt rev-parse --short HEAD), demo $demo in $pkg"
     cd $wt
-    cp $d/$demo $pkg/
+    mkdir -p $pkg; cp $d/$demo $pkg/
     echo "== package with demo, WITHOUT change (expect ok)"
-    go test -vet=off -count=1 $pkg 2>&1 | tail -3
+    go test -vet=off -count=1 -run "$run" $pkg 2>&1 | tail -3
     git apply $d/patch.diff && go build ./... && echo "patch applied, build ok"
     echo "== package with demo, WITH change (expect FAIL)"
-    go test -vet=off -count=1 $pkg 2>&1 | grep -v '^\s*$' | tail -12
-    rm -f $pkg/$demo
+    go test -vet=off -count=1 -run "$run" $pkg 2>&1 | grep -v '^\s*$' | tail -12
+    rm -f $pkg/$demo; [ -n "$mp" ] && rmdir $pkg 2>/dev/null
     echo "== full suite with change, without demo: non-ok lines"
     go test -vet=off -count=1 -timeout 25m ./... 2>&1 | grep -v "no test files" | grep -v "^ok" | grep -E "^(FAIL|---|panic|ok)" | head -40
     echo "== (end)"
